@@ -29,7 +29,7 @@ import pyarrow as pa
 import zstandard
 from pyarrow import ipc
 
-from vgi_rpc.metadata import CALL_STATE_KEY, REQUEST_VERSION, REQUEST_VERSION_KEY, RPC_METHOD_KEY, STATE_KEY
+from vgi_rpc.metadata import CALL_STATE_KEY, CANCEL_KEY, REQUEST_VERSION, REQUEST_VERSION_KEY, RPC_METHOD_KEY, STATE_KEY
 from vgi_rpc.rpc import AnnotatedBatch, AuthContext, CallContext, OutputCollector, RpcServer, Stream, StreamState
 
 ARROW_CT = "application/vnd.apache.arrow.stream"
@@ -158,6 +158,66 @@ def _ipc(schema: pa.Schema, cols: dict[str, Any], md: dict[bytes, bytes], bounds
     return sink.getvalue()
 
 
+def exchange_body(name: str, cur: bytes | None, call: bytes | None, cancel: bool = False) -> bytes:
+    """An /exchange request of stream ``name`` ("e": one input row, "p": a tick) carrying exactly the given tokens."""
+    md: dict[bytes, bytes] = {}
+    if cur is not None:
+        md[STATE_KEY] = cur
+    if call is not None:
+        md[CALL_STATE_KEY] = call
+    if cancel:
+        md[CANCEL_KEY] = b"1"
+    if name == "p":
+        return _ipc(pa.schema([]), {}, md)
+    return _ipc(E_IN, {"x": 7}, md)
+
+
+def _flip_unused_bits(tok: bytes) -> bytes | None:
+    """The same bytes in a NON-canonical base64 text: only the unused low bits of the last data character differ."""
+    alphabet = b"ABCDEFGHIJKLMNOPQRSTUVWXYZabcdefghijklmnopqrstuvwxyz0123456789+/"
+    pad = len(tok) - len(tok.rstrip(b"="))
+    if pad == 0:
+        return None
+    i = len(tok) - pad - 1
+    v = alphabet.index(tok[i : i + 1])
+    out = tok[:i] + alphabet[v ^ 1 : (v ^ 1) + 1] + tok[i + 1 :]
+    assert base64.b64decode(out, validate=True) == base64.b64decode(tok, validate=True) and out != tok
+    return out
+
+
+def token_mutations(tok: bytes, other_key_tok: bytes) -> dict[str, bytes | None]:
+    """Named ways a client can present a token that the server did not mint in this form (None = the key is absent)."""
+    raw = base64.b64decode(tok)
+    flipped = bytearray(raw)
+    flipped[len(flipped) // 2] ^= 0x01
+    # the same envelope re-armoured so that its text has padding, then de-canonicalised: covers tokens whose own length
+    # leaves no unused bits
+    m: dict[str, bytes | None] = {
+        "noncanonical-forged-short": b"QR==",
+        "noncanonical-forged-long": base64.b64encode(b"\x00" * 40 + b"x")[:-3] + b"1==",
+        "garbage-valid-base64": base64.b64encode(b"garbage bytes " * 5),
+        "garbage-short-valid-base64": b"QQ==",
+        "bit-flip": base64.b64encode(bytes(flipped)),
+        "truncated": tok[: len(tok) // 2 // 4 * 4],
+        "truncated-envelope": base64.b64encode(raw[:-5]),
+        "extended-envelope": base64.b64encode(raw + b"\x00"),
+        "wrong-padding-extra": tok + b"=",
+        "wrong-padding-stripped": tok.rstrip(b"=") if tok.endswith(b"=") else tok[:-1],
+        "non-base64-characters": b"!!not base64!!",
+        "non-base64-character-inserted": tok[:10] + b"*" + tok[10:],
+        "trailing-newline": tok + b"\n",
+        "urlsafe-alphabet": base64.urlsafe_b64encode(raw) if base64.urlsafe_b64encode(raw) != tok else tok.replace(b"A", b"-", 1),
+        "empty": b"",
+        "other-key": other_key_tok,
+        "missing": None,
+    }
+    nc = _flip_unused_bits(tok)
+    if nc is not None:
+        m["noncanonical-trailing-bits"] = nc
+    assert _flip_unused_bits(m["noncanonical-forged-long"] or b"") is not None
+    return m
+
+
 class World:
     """The four real apps (auth off/on x cap off/on) over ONE RpcServer, and the stream tokens minted by each."""
 
@@ -178,6 +238,10 @@ class World:
                 self.apps[(auth_on, cap_on)] = app
                 self.clients[(auth_on, cap_on)] = falcon.testing.TestClient(app)
         self._tokens: dict[tuple[bool, bool, str, int], tuple[bytes, bytes]] = {}
+        # an app whose call-state cache is disabled: every continuation opens the call token the client presents
+        self.cold_client = falcon.testing.TestClient(
+            make_wsgi_app(self.server, prefix="", token_key=b"k" * 32, call_state_cache_entries=0, enable_landing_page=False, enable_describe_page=False)
+        )
         # a fifth app on which zstd is a KNOWN BUT DISABLED coding (VGI_HTTP_DISABLE_ZSTD is read by make_wsgi_app)
         import os
 
